@@ -324,6 +324,29 @@ func TestCheck(t *testing.T) {
 		}
 	})
 
+	// Phase B3b: Ver values built by hand (not parsed) with very long identifier lists, and every MaxInputLength setting:
+	// the value methods do not depend on the parser's input limit.
+	r.Phase("B3b: hand-built versions with 3..2100 identifiers differing only in the last one, MaxInputLength in {1024, 0, 3, 4, 16}", func() {
+		old := sem.MaxInputLength
+		defer func() { sem.MaxInputLength = old }()
+		for _, lim := range []int{1024, 0, 3, 4, 16} {
+			sem.MaxInputLength = lim
+			r.Serial(func(w *vkit.W) {
+				for _, n := range []int{2, 3, 4, 5, 15, 16, 17, 100, 1023, 1024, 1025, 2100} {
+					stem := strings.Repeat("a.", n)
+					for _, tails := range [][2]string{{"1", "2"}, {"9", "10"}, {"a", "b"}, {"1", "a"}, {"x", "x.0"}} {
+						c := Case{A: V{Major: 1, Pre: stem + tails[0]}, B: V{Major: 1, Pre: stem + tails[1], Build: "b"}}
+						judge(c, w)
+						w.Eval(nontrivial(c))
+						c2 := Case{A: c.B, B: c.A}
+						judge(c2, w)
+						w.Eval(nontrivial(c2))
+					}
+				}
+			})
+		}
+	})
+
 	// Phase B4: very many distinct versions through the string helpers in one process, in ascending order.
 	nMany := int64(r.Pick(6000000, 60000000))
 	r.Phase(fmt.Sprintf("B4: %d distinct ascending versions compared with their successor through Compare / CompareVersion / LatestTag", nMany), func() {
